@@ -13,7 +13,7 @@ import (
 
 func init() { Registry["C13"] = runC13 }
 
-const explanationC13 = "Decides structural necessary conditions of C13 on expr's dup and hash families: (R13.1) ownership — in dupper.DupAttribute/DupType every structural pointer field of the value being built (Type, ElemType, KeyType, union/object member attributes, Validation, Meta) is initialised from a dup-family call or a fresh allocation, never directly from the source, and the copied-attribute memo only ever registers the new copy; (R13.2) DupType's type switch covers every DataType implementer of package expr and hash's switch covers every Kind constant, both with panicking defaults; (R13.3) the cycle memo is stored before recursing (DupType user-type arm, hashObject); (R13.4) sort comparators in expr index the slice they sort and no order-sensitive map iteration occurs in the hash functions; (R13.5) Equal is exactly a comparison of two Hash calls with identical constant flags, and every recursive call in the hash family passes the flag parameters through unchanged and in position; (R13.6) the Dup literals are exhaustive (reviewed exception table); (R13.7) hashUserType's flag semantics match Hash's doc comment on every path. NOT decided: structural equality of copy and original on all graphs, permutation invariance beyond these rules, absence of hash collisions, termination."
+const explanationC13 = "Decides structural necessary conditions of C13 on expr's dup and hash families: (R13.1) ownership — in dupper.DupAttribute/DupType every structural pointer field of the value being built (Type, ElemType, KeyType, union/object member attributes, Validation, Meta) is initialised from a dup-family call or a fresh allocation, never directly from the source, and the copied-attribute memo only ever registers the new copy; (R13.2) DupType's type switch covers every DataType implementer of package expr and hash's switch covers every Kind constant, both with panicking defaults; (R13.3) the cycle memo is stored before recursing (DupType user-type arm, hashObject); (R13.4) sort comparators in expr index the slice they sort and no order-sensitive map iteration occurs in the hash functions; (R13.5) Equal is exactly a comparison of two Hash calls with identical constant flags, and every recursive call in the hash family passes the flag parameters through unchanged and in position; (R13.6) the Dup literals are exhaustive (reviewed exception table); (R13.7) hashUserType's flag semantics match Hash's doc comment on every path. shared R01.2 (HashedUnique stores under the hash the name it returns: the same type gets the same name on every call). NOT decided: structural equality of copy and original on all graphs, permutation invariance beyond these rules, absence of hash collisions, termination."
 
 func runC13(c *an.Ctx) string {
 	r131Ownership(c)
@@ -23,6 +23,7 @@ func runC13(c *an.Ctx) string {
 	r135EqualAndFlags(c)
 	r136Exhaustive(c)
 	r137HashFlags(c)
+	r012Scope(c) // shared with C01 (rule id R01.2): HashedUnique gives one hash one name, every time it is asked
 	return explanationC13
 }
 
@@ -432,7 +433,12 @@ func r133Memo(c *an.Ctx) {
 				return false
 			}
 			for _, l := range as.Lhs {
-				if ix, ok := an.Unparen(l).(*ast.IndexExpr); ok && paramIndex(f, ix.X) >= 0 {
+				if ix, ok := an.Unparen(l).(*ast.IndexExpr); ok {
+					// the seen-set: a map parameter, or a map field of a parameter/receiver that carries it
+					root := an.RootIdent(ix.X)
+					if root == nil || (paramIndex(f, root) < 0 && !isReceiver(f, root)) {
+						continue
+					}
 					if _, isMap := info.Types[ix.X].Type.Underlying().(*types.Map); isMap {
 						return true
 					}
@@ -524,6 +530,20 @@ func r134Order(c *an.Ctx) {
 				for _, call := range an.AllCallsIn(rs.Body) {
 					if an.CalleeName(info, call) == an.P("expr")+".hash" {
 						ok = sortedObj != nil && an.ObjOf(info, rs.X) == sortedObj
+						// or the loop ranges over the result of a function that returns a slice it sorted
+						if rc, isCall := an.Unparen(rs.X).(*ast.CallExpr); isCall && !ok {
+							if h := c.FuncOfObj(an.Callee(info, rc)); h != nil {
+								for _, sc := range an.SortComparators(h) {
+									so := an.ObjOf(h.Pkg.TypesInfo, an.RootIdent(sc.Call.Args[0]))
+									ast.Inspect(h.Decl.Body, func(x ast.Node) bool {
+										if ret, isRet := x.(*ast.ReturnStmt); isRet && len(ret.Results) == 1 && so != nil && sc.Problem == "" && an.ObjOf(h.Pkg.TypesInfo, ret.Results[0]) == so {
+											ok = true
+										}
+										return true
+									})
+								}
+							}
+						}
 					}
 				}
 			}
@@ -693,6 +713,22 @@ func r137HashFlags(c *an.Ctx) {
 		idx[sig.Params().At(i).Name()] = fmt.Sprintf("p%d", i)
 	}
 	pf, pn, pt := idx["ignoreFields"], idx["ignoreNames"], idx["ignoreTags"]
+	// the options may travel as fields of a receiver or of an options struct: the atom is then "<x>.ignoreFields"
+	for i := range t.Paths {
+		for _, a := range t.Paths[i].Atoms {
+			for name, dst := range map[string]*string{"ignoreFields": &pf, "ignoreNames": &pn, "ignoreTags": &pt} {
+				if *dst == "" && strings.HasSuffix(a.Term, "."+name) && !strings.ContainsAny(a.Term, "( ") {
+					*dst = a.Term
+				}
+			}
+		}
+	}
+	utParam := "p0" // the user type being hashed
+	for i, prm := range c.SSAFunc(f).Params {
+		if strings.HasSuffix(prm.Type().String(), "expr.UserType") {
+			utParam = fmt.Sprintf("p%d", i)
+		}
+	}
 	if pf == "" || pn == "" || pt == "" {
 		c.Undecidedf(rule, f.Name, f.Decl.Pos(), "flag parameters ignoreFields/ignoreNames/ignoreTags not found")
 		return
@@ -716,7 +752,7 @@ func r137HashFlags(c *an.Ctx) {
 			}
 			return false
 		}
-		name := has("p0.Name()")
+		name := has(utParam + ".Name()")
 		rec := has("expr.hash(")
 		tags := false
 		for _, cl := range calls {
@@ -789,4 +825,20 @@ func isAddrOfLocal(f *an.Func, e ast.Expr) bool {
 		return true
 	})
 	return defs > 0 && defs == good
+}
+
+// isReceiver reports whether id denotes the receiver of f.
+func isReceiver(f *an.Func, id *ast.Ident) bool {
+	if f.Decl.Recv == nil {
+		return false
+	}
+	o := an.ObjOf(f.Pkg.TypesInfo, id)
+	for _, fl := range f.Decl.Recv.List {
+		for _, n := range fl.Names {
+			if f.Pkg.TypesInfo.Defs[n] == o && o != nil {
+				return true
+			}
+		}
+	}
+	return false
 }
